@@ -139,7 +139,9 @@ def generate(src):
     def h_wait_for(ex, st, e, recv, args, kw, k, K):
         inner = args[0]
         if not (isinstance(inner, Tok) and inner.kind == 'invoke'): raise Unsupported("asyncio.wait_for on something that is not the invocation")
-        ob(st, "run_task/timeout: the limit is the message's timeout label  [C07]", to_val(args[1]) == G(st)['timeout_label'] if len(args) > 1 else BoolVal(False))
+        if set(kw) - {'timeout'} or len(args) > 2: raise Unsupported("asyncio.wait_for call shape: " + ast.unparse(e))
+        lim = args[1] if len(args) > 1 else kw.get('timeout')
+        ob(st, "run_task/timeout: the limit is the message's timeout label  [C07]", to_val(lim) == G(st)['timeout_label'] if lim is not None or 'timeout' in kw else BoolVal(False))
         setG(st, timeout_enforced=BoolVal(True))
         return k(st, Tok(lambda s, k2, K2: inner.eff(s, k2, K2, timed=True), 'invoke'))
     def h_float(ex, st, e, recv, args, kw, k, K):
